@@ -85,16 +85,20 @@ Definition tabs0 : tabs := mkt (fun _ => 0) (fun _ => 0) (fun _ => false).
 
 Definition op_H (o : op) : Z := match o with ORender _ _ _ H _ => H | _ => 0 end.
 
-Fixpoint run_ops (tbs : Z -> tabs) (fs : bool) (nrows : Z) (r : rst) (t : term) (curW : Z) (ops : list op)
+Fixpoint run_ops (tbs : Z -> tabs) (fs : bool) (nrows : Z) (r : rst) (t : term * Z) (curW curB : Z) (ops : list op)
   : list sx :=
   match ops with
   | [] => []
   | o :: rest =>
       let '(r', ks) := r_step tbs fs r o in
       let W := op_width curW o in
-      let t' := t_step W t o ks in
-      L [sx_toks ks; dump t' W nrows] :: run_ops tbs fs nrows r' t' W rest
+      let B := match o with ORender _ _ _ H _ => H | _ => curB end in
+      let '(t1, n1) := trunB B W t ks in
+      let t' := if op_shifts o then tshift t1 (cy t1) else t1 in
+      L [sx_toks ks; dump t' n1 W nrows] :: run_ops tbs fs nrows r' (t', n1) W B rest
   end.
+
+Definition big : Z := 1073741824.
 
 Definition run_C06 (s : sx) : sx :=
   match s with
@@ -105,7 +109,7 @@ Definition run_C06 (s : sx) : sx :=
           let nrows := fold_left (fun m o => Z.max m (op_H o)) os 0 + 2 in
           let '(r0, k0) := r_new in
           let t0 := trun 1 term0 k0 in
-          L (L [sx_toks k0; dump t0 1 nrows] :: run_ops tbs fs nrows r0 t0 1 os)
+          L (L [sx_toks k0; dump t0 0 1 nrows] :: run_ops tbs fs nrows r0 (t0, 0) 1 big os)
       | _, _, _ => bad_case
       end
   | _ => bad_case
